@@ -3,7 +3,7 @@
 EXTENDS Json, IOUtils, SequencesExt, Integers, Sequences, FiniteSets, TLC
 CONSTANTS Layer, NShards, Shard
 EnvC14 == INSTANCE Environment WITH NGood <- 23, NFail <- 0, MaxLen <- 2, MinFail <- 0, hist <- <<>>
-EnvC15 == INSTANCE Environment WITH NGood <- 6, NFail <- 30, MaxLen <- 3, MinFail <- 1, hist <- <<>>
+EnvC15 == INSTANCE Environment WITH NGood <- 6, NFail <- 32, MaxLen <- 3, MinFail <- 1, hist <- <<>>
 Corpus == CASE Layer = "C14" -> EnvC14!AllHists_(0)
             [] Layer = "C15" -> {[h |-> h, twin |-> EnvC15!Twin(h)] : h \in EnvC15!AllHists_(0)}
 VARIABLE done
